@@ -100,7 +100,7 @@ func VerifSequentialHistory() {
 	w := &verifWorld{changed: make(chan struct{}, 64), symbolic: verif.Symbolic()}
 	w.crashBudget = verif.Bound("process_deaths", 1, 2)
 	m := w.newBareManager()
-	steps := verif.Bound("steps", 3, 5)
+	steps := verif.Bound("steps", 3, 4)
 	for s := 0; s < steps; s++ {
 		var died bool
 		op := verif.Choice("op", 5)
